@@ -874,7 +874,7 @@ AMemoRet ==
 (* path so that identities (memo keys) do not depend on the call depth.    *)
 
 ARecStart ==
-  /\ Entering({"rec"})
+  /\ Entering({"rec", "recd"})
   /\ LET f == Top
          bp == Append(f.path, 1)
      IN /\ CallX([f EXCEPT !.pc = 1], f.g[2], f.mode, f.ctx, <<[body |-> f.g[2], path |-> bp]>> \o f.env, bp, "go", 0,
@@ -926,7 +926,7 @@ ATPaddedRet ==
      IF ret.ok THEN Return(OkRet(ret.val), c2, sec, insp + (c2 - cur), alt) ELSE Keep(ErrRet)
 
 APassRet ==      \* rec, ref, let, var, with_ctx, map_ctx, text: the child's result is the result
-  /\ Resuming({"rec", "ref", "let", "var", "withctx", "mapctx", "text"}, 1)
+  /\ Resuming({"rec", "recd", "ref", "let", "var", "withctx", "mapctx", "text"}, 1)
   /\ Keep([ret EXCEPT !.fr = NoFrame])
 
 ---------------------------------------------------------------------------
